@@ -66,6 +66,93 @@ def falsy_cases():
     return out
 
 
+# ---- (1b) equal but not identical primitives -------------------------------------------------------------------------
+
+PRIM_SRC = ('x = (b"abc", b"\\x00\\xff\\x10", "hello world", 100000, 12345678901234567890, 1.5e10, 2.5j, None, ..., True, False, b"", "")\n'
+            'from ..pkg.mod import name_one as alias_two\n'
+            'def func_name(arg_name, *var_arg, kw_only=b"default", **kw_arg) -> "ret ann": return obj_x.attr_name(key_word=f"{val!r:>10}")\n'
+            'global_decl = 1\n'
+            'try: pass\nexcept Exc as exc_name: pass\n'
+            'match subj:\n    case Cls(kwd_attr=123456): pass\n    case {"k": 3.25, **rest_name}: pass\n    case [*star_name] as as_name: pass\n'
+            'type Alias[TypeV] = int\n'
+            'import mod_a.mod_b as mod_c\n')
+
+
+def _fresh(v):
+    """an equal object that is not the same object where CPython allows it"""
+    if isinstance(v, bytes):
+        return bytes(bytearray(v))
+    if isinstance(v, bool) or v is None or v is ...:
+        return v
+    if isinstance(v, str):
+        return ''.join(list(v))
+    if isinstance(v, int):
+        return int(str(v))
+    if isinstance(v, float):
+        return float(repr(v))
+    if isinstance(v, complex):
+        return complex(repr(v))
+    return v
+
+
+def _fresh_tree(a):
+    if isinstance(a, ast.AST):
+        return a.__class__(**{f: _fresh_tree(getattr(a, f, None)) for f in a._fields})
+    if isinstance(a, list):
+        return [_fresh_tree(x) for x in a]
+    return _fresh(a)
+
+
+def primitive_cases():
+    """[(name, pattern, target, expected)]: a tree against the pattern from an independent parse / a deep copy with fresh
+    leaf objects, node by node; and search with a hand-written constant pattern"""
+    from fst import FST
+    from fst.match import MConstant, MName
+    out = []
+    f = FST(PRIM_SRC, 'exec')
+    indep = ast.parse(PRIM_SRC)
+    out.append(('whole tree vs independent parse', indep, f, True))
+    out.append(('whole tree vs deep copy with fresh leaves', _fresh_tree(f.a), f, True))
+    out.append(('pure AST vs independent parse', ast.parse(PRIM_SRC), ast.parse(PRIM_SRC), True))
+    # node by node: every node that owns a primitive field
+    nodes_f = [g for g in f.walk(True)]
+    nodes_i = list(ast.walk(indep))
+    by_dump = {}
+    for n in nodes_i:
+        by_dump.setdefault(ast.dump(n), n)
+    for g in nodes_f:
+        prim = [fl for fl in g.a._fields if not isinstance(getattr(g.a, fl, None), (ast.AST, list))]
+        if not prim or isinstance(g.a, (ast.expr_context, ast.operator, ast.cmpop, ast.unaryop, ast.boolop)):
+            continue
+        twin = by_dump.get(ast.dump(g.a))
+        if twin is not None:
+            out.append((f'{g.a.__class__.__name__} {ast.dump(g.a)[:60]} vs independent parse', twin, g, True))
+        out.append((f'{g.a.__class__.__name__} {ast.dump(g.a)[:60]} vs fresh copy', _fresh_tree(g.a), g, True))
+    for v in (b'abc', 'hello world', 100000, 12345678901234567890, 1.5e10, 2.5j, None, ..., True, 3.25, 123456):
+        tgt = next(g for g in nodes_f if isinstance(g.a, ast.Constant) and type(g.a.value) is type(v) and g.a.value == v)
+        pat = MConstant(value=_fresh(v))
+        out.append((f'MConstant({v!r}) vs its constant', pat, tgt, True))
+        out.append((f'search(MConstant({v!r}))', ('search', pat, ast.dump(tgt.a)), f, True))
+    for nm in ('obj_x', 'subj', 'Cls'):
+        out.append((f'search(MName({nm!r}))', ('search', MName(id=_fresh(nm)), None), f, True))
+    return out
+
+
+def _prim_run(pat, tgt):
+    if isinstance(pat, tuple) and pat[0] == 'search':
+        try:
+            return len(list(tgt.search(pat[1]))) >= 1
+        except Exception as e:      # noqa: BLE001
+            return 'raised ' + type(e).__name__
+    from fst import FST
+    if isinstance(tgt, FST) and isinstance(pat, ast.AST):
+        try:
+            return tgt.match(pat) is not None
+        except Exception as e:      # noqa: BLE001
+            return 'raised ' + type(e).__name__
+    return _m(pat, tgt)
+
+
 # ---- (2) ------------------------------------------------------------------------------------------------------------
 
 def constructor_cases():
@@ -215,6 +302,15 @@ def sweep(ctx):
             cls = 'raised' if isinstance(got, str) else 'wrong-accept' if got else 'wrong-reject'
             fail(f'C17|structural|none-vs-falsy|{cls}', f'{name}: match gives {got}, expected {exp} (None matches only None)',
                  {'kind': 'views', 'family': 'falsy', 'index': i, 'name': name})
+    for i, (name, pat, tgt, exp) in enumerate(primitive_cases()):
+        ctx.count(('prim', name))
+        got = _prim_run(pat, tgt)
+        if got != exp:
+            cls = 'raised' if isinstance(got, str) else 'own-pattern-rejected'
+            what = 'search-constant' if name.startswith('search') else name.split(' ')[0].split('(')[0]
+            fail(f'C17|structural|equal-not-identical-leaf-{what}|{cls}',
+                 f'{name}: a pattern with equal but not identical leaf objects gives {got}, expected {exp}',
+                 {'kind': 'views', 'family': 'prim', 'index': i, 'name': name})
     for i, (name, thunk, ok) in enumerate(constructor_cases()):
         ctx.count(('ctor', name))
         try:
@@ -251,6 +347,9 @@ def replay(ctx, w):
     if fam == 'falsy':
         name, pat, tgt, exp = falsy_cases()[i]
         got = _m(pat, tgt)
+    elif fam == 'prim':
+        name, pat, tgt, exp = primitive_cases()[i]
+        got = _prim_run(pat, tgt)
     elif fam == 'ctor':
         name, thunk, exp = constructor_cases()[i]
         try:
